@@ -388,6 +388,47 @@ func TestC14Socket(t *testing.T) {
 				{Op: "write", Hex: frame(bid, 0x0002, 1, nil)}, {Op: "wait_frames", N: 1, DeadlineMs: 5000}, {Op: "pause", PauseUs: 5_400_000},
 				{Op: "write", Hex: frame(bid, 0x0002, 2, nil)}, {Op: "wait_frames", N: 2, DeadlineMs: 4000}, {Op: "pause", PauseUs: 300000}, {Op: "close", Mode: "fin"}}})
 		}
+		// the same terminal script against a server started with WithHasSubcontract(false) (every packet is handed to the
+		// handlers and answered): the re-requests must be the same seven frames; runs concurrently with the main scenario
+		type nfResult struct {
+			got map[uint16][]uint16
+			bad string
+		}
+		nfCh := make(chan nfResult, 1)
+		go func() {
+			var st []Step
+			for _, x := range steps {
+				if x.Op == "barrier" {
+					continue
+				}
+				if x.Op == "close" {
+					st = append(st, Step{Op: "pause", PauseUs: 400000})
+				}
+				st = append(st, x)
+			}
+			hn := runScenario(Scenario{NoFilter: true, Actors: []Actor{{Name: "t", Kind: "terminal", Steps: st}}})
+			out := nfResult{got: map[uint16][]uint16{}}
+			if hn.Exit != "ok" {
+				out.bad = "child exit " + hn.Exit + " " + hn.Stderr
+			}
+			fr, _, bad := serverFrames(hn, "t")
+			if bad != "" {
+				out.bad = bad
+			}
+			for _, f := range fr {
+				if f.ID == 0x8003 && len(f.Body) >= 3 && len(f.Body) == 3+2*int(f.Body[2]) {
+					var l []uint16
+					for k := 0; k < int(f.Body[2]); k++ {
+						l = append(l, ref.BE16(f.Body[3+2*k:]))
+					}
+					if _, dup := out.got[ref.BE16(f.Body)]; dup {
+						out.bad = fmt.Sprintf("two re-requests for first-packet serial %d", ref.BE16(f.Body))
+					}
+					out.got[ref.BE16(f.Body)] = l
+				}
+			}
+			nfCh <- out
+		}()
 		h := runScenario(Scenario{Actors: actors})
 		res := kit.Result{NT: true, Labels: []string{"socket_many_stalled_transfers"}}
 		if !childVerdict(h, &res) {
@@ -429,6 +470,18 @@ func TestC14Socket(t *testing.T) {
 		}
 		if len(got) != stalled {
 			return map[string]any{"frames": idsSeen}, kit.Fail("%d re-requests for %d stalled transfers", len(got), stalled)
+		}
+		nf := <-nfCh
+		if nf.bad != "" {
+			return "C14 socket scenario without the sub-package filter", kit.Fail("%s", nf.bad)
+		}
+		for _, x := range trs {
+			if len(x.missing) > 0 && fmt.Sprint(nf.got[x.first]) != fmt.Sprint(x.missing) {
+				return map[string]any{"got": fmt.Sprint(nf.got)}, kit.Fail("server without the sub-package filter: after 5.4 s of silence the re-request for first-packet serial %d is %v, want %v (all re-requests seen: %v)", x.first, nf.got[x.first], x.missing, nf.got)
+			}
+		}
+		if len(nf.got) != stalled {
+			return map[string]any{"got": fmt.Sprint(nf.got)}, kit.Fail("server without the sub-package filter: %d re-requests for %d stalled transfers", len(nf.got), stalled)
 		}
 		for b := 0; b < bystanders; b++ {
 			bf, _, bad := serverFrames(h, fmt.Sprintf("bystander%d", b))
